@@ -190,21 +190,35 @@ def compile_neg(src_path, flags, compiler="clang++"):
     r = run(cmd)
     blocks = []
     cur = None
+    pending = []          # gcc prints the instantiation chain ("required from ...") *before* the error it belongs to
     for line in r.stderr.splitlines():
         m = DIAG.match(line)
         if not m:
-            # gcc: "In instantiation of ..." / "required from here" lines carry locations too
+            if re.match(r"^[^:\s][^:]*: In (instantiation|substitution|function|member function|static member function|constructor|lambda)", line):
+                pending = []      # a new diagnostic group starts: its chain follows
+                continue
             m2 = re.match(r"^(.*?):(\d+):(\d+):\s+(required from|required by|in instantiation)", line)
-            if m2 and cur is not None:
-                cur["locs"].append((m2.group(1), int(m2.group(2))))
+            if m2:
+                pending.append((m2.group(1), int(m2.group(2))))
             continue
         f, ln, col, kind, msg = m.groups()
         if kind in ("error", "fatal error"):
-            cur = {"locs": [(f, int(ln))], "msg": msg, "notes": []}
+            cur = {"locs": [(f, int(ln))] + pending, "msg": msg, "notes": []}
+            pending = []
             blocks.append(cur)
         elif cur is not None:
             cur["locs"].append((f, int(ln)))
             cur["notes"].append(msg)
+    if compiler != "clang++":
+        # gcc reports follow-up errors of one failed instantiation (the substitution failure behind a "no matching
+        # function") as separate errors without a chain of their own: they belong to the error before them
+        base = os.path.basename(src_path)
+        prev = None
+        for b in blocks:
+            if not any(os.path.basename(f) == base for f, _ in b["locs"]) and prev is not None:
+                b["locs"] = b["locs"] + [(f, ln) for f, ln in prev["locs"] if os.path.basename(f) == base]
+            else:
+                prev = b
     return r.returncode, blocks, r.stderr
 
 
@@ -212,6 +226,49 @@ def check_c11_schema(chk, sref, root, std="c++17", compiler="clang++"):
     n = check_c11_variant(chk, sref, root, std, compiler, 0)
     if any(True for lvl, _, _ in sref.model.levels() if lvl.groups):
         n += check_c11_variant(chk, sref, root, std, compiler, 1)
+    return n
+
+
+def check_c11_one_by_one(chk, sref, src, tags, p, flags, std, compiler):
+    """compiler-independent judgement (used for g++, whose diagnostics of one failed instantiation are not repeated
+    per call site): the TU with *no* mutator line must compile, and the TU with exactly one mutator line must not"""
+    from concurrent.futures import ThreadPoolExecutor
+    lines = src.split("\n")
+    d = os.path.dirname(p)
+    base = os.path.basename(p)[:-4]
+
+    def variant_src(keep):
+        out = []
+        for i, l in enumerate(lines, 1):
+            out.append("" if (i in tags and i != keep) else l)
+        return "\n".join(out)
+
+    def compiles(keep):
+        q = os.path.join(d, "%s_%s_%s_%d.cpp" % (base, compiler.replace("+", "p"), std.replace("+", "p"), keep))
+        open(q, "w").write(variant_src(keep))
+        r = run([compiler, "-fsyntax-only", "-w", "-fmax-errors=1"] + flags + [q])
+        try:
+            os.unlink(q)
+        except OSError:
+            pass
+        return keep, r.returncode == 0, r.stderr[:300]
+    k0, ok0, err0 = compiles(0)
+    if not ok0:
+        chk.broke("negative witness skeleton of %s does not compile under %s %s: %s" % (sref.name, compiler, std, err0))
+        return 0
+    with ThreadPoolExecutor(NPROC) as ex:
+        res = list(ex.map(compiles, sorted(tags)))
+    n = 0
+    for ln, ok_, err in res:
+        n += 1
+        what = tags[ln]
+        key = "%s|%s" % (sref.name, what)
+        if not ok_:
+            chk.ok("W-NEG", key + "@" + std + compiler[0], {"call": lines[ln - 1].strip(), "rejected_with": err.split("error:")[-1][:100].strip()})
+        else:
+            chk.violation("W-NEG", re.sub(r"\S*::(\w+::\w+) ", r"\1 ", what), "%s:%d" % (p, ln),
+                          "mutating call `%s` (%s, schema %s) compiles on a read-only view/cursor under %s %s"
+                          % (lines[ln - 1].strip(), what, sref.name, compiler, std))
     return n
 
 
@@ -225,13 +282,15 @@ def check_c11_variant(chk, sref, root, std, compiler, variant):
     p = os.path.join(d, "neg%d_%s.cpp" % (variant, sref.name))
     open(p, "w").write(src)
     flags = ["-std=" + std, "-I" + os.path.join(REPO, "sbepp/src"), "-I" + schemas.HARNESS_DIR, "-I" + root]
+    if compiler != "clang++":
+        return check_c11_one_by_one(chk, sref, src, tags, p, flags, std, compiler)
     rc, blocks, err = compile_neg(p, flags, compiler)
     if rc == 0:
         chk.violation("W-NEG", "neg-tu-compiles:" + sref.name, p, "the whole negative witness TU of %s compiles: no mutator is rejected" % sref.name)
         return 0
     hit = {}
     stray = []
-    if variant == 1:
+    if variant == 1 and compiler == "clang++":
         # a hard error inside group::clear() is reported through the enclosing
         # witness function, not through the calling line: attribute per function
         lines = src.splitlines()
